@@ -137,6 +137,8 @@ class FnSM(P.Fn):
         self.rec_params = []     # opaque Lean type parameters in order of first use
         self.uses_rows = False
         self.used_opaque = []
+        self.uses_field_of = False
+        self.used_attrs = []     # (record type, attribute, type) of opaque objects' attributes read
         self.used_cols = []      # (column, row type, column type) of structured-array columns read
         self.is_method = False
         self.inlining = []
@@ -235,6 +237,8 @@ class FnSM(P.Fn):
         return any(walk(s, False) for s in stmts)
 
     def coerce_sm(self, v, ty, node):
+        if ty.kind == "str" and v.ty.kind == "str":
+            return self.str_code(v)
         if ty.kind == "opt":
             if v.ty.kind == "none":
                 return f"(none : {lty(ty)})"
@@ -277,6 +281,33 @@ class FnSM(P.Fn):
         return "Unit" if not names else " × ".join(P._paren(lty(tys[nm])) for nm in names)
 
     # ---------------------------------------------------------------- expressions added to py2lean.Fn
+    def to_bool(self, v, node):
+        if v.ty.kind == "list":
+            return f"(!(List.isEmpty {v.code}))"            # truthiness of a list: non-empty
+        if v.ty.kind == "str" and v.code is not None:
+            return f"(!({v.code} == \"\"))"
+        return super().to_bool(v, node)
+
+    def e_UnaryOp(self, e, env):
+        if isinstance(e.op, ast.Not):
+            v = self.expr(e.operand, env)
+            if v.is_static:
+                return Val("true" if not v.static else "false", BOOL, static=not v.static)
+            return Val(f"(!{self.to_bool(v, e)})", BOOL)
+        return super().e_UnaryOp(e, env)
+
+    def e_Dict(self, e, env):
+        # {'>': operator.gt, …}: a table of comparison functions
+        ops = {"operator.gt": "gt", "operator.lt": "lt", "operator.ge": "ge", "operator.le": "le", "operator.eq": "eq",
+               "operator.ne": "ne"}
+        keys = [k.value if isinstance(k, ast.Constant) and isinstance(k.value, str) else None for k in e.keys]
+        vals = [ops.get(dotted(v)) for v in e.values]
+        if e.keys and all(k is not None for k in keys) and all(v is not None for v in vals):
+            if len(set(keys)) != len(keys):
+                self.bad(e, "dict literal with a repeated key")
+            return Val("[" + ", ".join(f"({_strlit(k)}, PySM.Cmp.{v})" for k, v in zip(keys, vals)) + "]", Ty("cmpdict"))
+        self.bad(e, "dict literal other than {str: operator.<comparison>}")
+
     def e_Name(self, e, env):
         if e.id == "self":
             self.bad(e, "`self` used as a value (only self.<attr> is translated)")
@@ -287,10 +318,14 @@ class FnSM(P.Fn):
             return Val("[]", EMPTYLIST)
         vs = [self.expr(x, env) for x in e.elts]
         t = vs[0].ty.with_elem(False)
+        if t.kind == "str":
+            return Val("[" + ", ".join(self.str_code(v) for v in vs) + "]", LIST(STR))
         return Val("[" + ", ".join(self.coerce_sm(v, t, e) for v in vs) + "]", LIST(t))
 
     def e_Attribute(self, e, env):
         k = self.key_of(e)
+        if k == "self.__class__":
+            return Val(None, Ty("class"), static="<class of self>")
         if k is not None and k.startswith("self."):
             if k in env:
                 return env[k]
@@ -298,6 +333,16 @@ class FnSM(P.Fn):
             if m is not None and any(dotted(d) == "property" for d in m.decorator_list):
                 return self.inline_method(m, e, env)
             self.bad(e, f"{k} is neither a declared field of the state record nor a property with a single-expression body")
+        ra = self.spec.get("rec_attrs", {})
+        if any(e.attr in d for d in ra.values()):
+            n0 = len(self.pending)
+            v = self.expr(e.value, env)
+            if v.ty.kind == "rec" and e.attr in ra.get(v.ty.item, {}):
+                ent = (v.ty.item, e.attr, ra[v.ty.item][e.attr])
+                if ent not in self.used_attrs:
+                    self.used_attrs.append(ent)
+                return Val(f"({v.ty.item}_{e.attr} {v.code})", ra[v.ty.item][e.attr])
+            del self.pending[n0:]
         ta = self.spec.get("tuple_attrs", {})
         if e.attr in ta and not (isinstance(e.value, ast.Name) and e.value.id == "self"):
             n0 = len(self.pending)
@@ -403,6 +448,24 @@ class FnSM(P.Fn):
             self.bad(e, f".shape[0] of {a.ty}")
         v = self.expr(e.value, env)
         s = e.slice
+        if v.ty.kind == "cmpdict":
+            kx = self.expr(s, env)
+            if kx.ty.kind != "str":
+                self.bad(e, f"operator table indexed with {kx.ty}")
+            t = self.fresh("t")
+            self.pending.append((t, f"(PySM.dictGet {v.code} {self.str_code(kx)})"))
+            return Val(t, Ty("cmpop"))
+        if v.ty.kind == "list" and v.ty.item is not None and v.ty.item.kind == "rec" and "field_of" in self.spec \
+                and not isinstance(s, ast.Slice):
+            n0 = len(self.pending)
+            kx = self.expr(s, env)
+            if kx.ty.kind == "str":
+                # a[name] with the field name a run-time (or literal) string: float64 values of that field
+                self.uses_field_of = True
+                t = self.fresh("t")
+                self.pending.append((t, f"(PySM.column field_of {self.str_code(kx)} {v.code})"))
+                return Val(t, LIST(F64))
+            del self.pending[n0:]
         if v.ty.kind == "list" and v.ty.item is not None and v.ty.item.kind == "rec" and isinstance(s, ast.Constant) \
                 and isinstance(s.value, str):
             # column of a structured array
@@ -498,7 +561,7 @@ class FnSM(P.Fn):
         kw = {k.arg: k.value for k in e.keywords}
         np_ = lambda *names: fn in [p + n for n in names for p in ("numpy.", "np.")]
         opq = self.spec.get("opaque", {})
-        if fn in opq:
+        if fn in opq and not (fn == "float"):
             o = opq[fn]
             if fn not in self.used_opaque:
                 self.used_opaque.append(fn)
@@ -511,6 +574,11 @@ class FnSM(P.Fn):
             for k in e.keywords:
                 if k.arg is None:
                     continue        # `**kwargs`: declared pass-through of the caller's options (not a value of the model)
+                if k.arg in o.get("fixed_kw", {}):
+                    fv = self.expr(k.value, env)
+                    if not (fv.is_static and fv.static == o["fixed_kw"][k.arg]):
+                        self.bad(e, f"opaque {fn}: keyword {k.arg} is not the fixed {o['fixed_kw'][k.arg]!r}")
+                    continue
                 if k.arg not in o.get("kwparams", {}):
                     self.bad(e, f"opaque {fn}: keyword {k.arg} is not declared")
                 kwv[k.arg] = self.expr(k.value, env)
@@ -531,6 +599,53 @@ class FnSM(P.Fn):
             if m is None:
                 self.bad(e, f"method self.{e.func.attr} not found in the class")
             return self.inline_method(m, e, env)
+        if ((fn is None and isinstance(e.func, ast.Subscript)) or
+                (isinstance(e.func, ast.Name) and fn in env and env[fn].ty.kind == "cmpop")) and len(args) == 2 and not kw:
+            f = self.expr(e.func, env)
+            if f.ty.kind == "cmpop":
+                a, b = self.expr(args[0], env), self.expr(args[1], env)
+                if a.ty == LIST(F64) and b.ty.kind in ("f64", "int", "nat"):
+                    return Val(f"(List.map (fun x_ => PySM.Cmp.apply {f.code} x_ {self.to_f64(b, e)}) {a.code})", LIST(BOOL))
+                self.bad(e, f"comparison function applied to {a.ty}, {b.ty}")
+            self.bad(e, "call of a subscripted value that is not an entry of an operator table")
+        if fn == "isinstance" and len(args) == 2 and not kw:
+            v = self.expr(args[0], env)
+            names = [dotted(x) for x in (args[1].elts if isinstance(args[1], ast.Tuple) else [args[1]])]
+            if all(n_ in ("str", "list", "tuple") for n_ in names) and v.ty.kind in ("str", "list", "none", "int", "f64"):
+                r = (v.ty.kind == "str" and "str" in names) or (v.ty.kind == "list" and ("list" in names or "tuple" in names))
+                # a Python list and a tuple of statements are both the type `list` here
+                return Val("true" if r else "false", BOOL, static=r)
+            self.bad(e, f"isinstance({v.ty}, {names})")
+        if fn == "float" and len(args) == 1 and not kw and "float" in opq:
+            n0 = len(self.pending)
+            v = self.expr(args[0], env)
+            if v.ty.kind == "str":
+                o = opq["float"]
+                if "float" not in self.used_opaque:
+                    self.used_opaque.append("float")
+                t = self.fresh("t")
+                self.pending.append((t, f"({o['lean']} {self.str_code(v)})"))
+                return Val(t, F64)
+            if v.ty.kind in ("int", "nat", "f64"):
+                return Val(self.to_f64(v, e), F64)
+            self.bad(e, f"float() of {v.ty}")
+        if isinstance(e.func, ast.Attribute) and e.func.attr == "split" and len(args) == 1 and not kw \
+                and isinstance(args[0], ast.Constant) and isinstance(args[0].value, str) and args[0].value:
+            v = self.expr(e.func.value, env)
+            if v.ty.kind == "str":
+                return Val(f"(PySM.split {self.str_code(v)} {_strlit(args[0].value)})", LIST(STR))
+            self.bad(e, f".split of {v.ty}")
+        if isinstance(e.func, ast.Attribute) and e.func.attr == "join" and len(args) == 1 and not kw \
+                and isinstance(e.func.value, ast.Constant) and isinstance(e.func.value.value, str):
+            v = self.expr(args[0], env)
+            if v.ty == LIST(STR):
+                return Val(f"(PySM.join {_strlit(e.func.value.value)} {v.code})", STR)
+            self.bad(e, f".join of {v.ty}")
+        if (np_("copy") or fn == "list") and len(args) == 1 and not kw:
+            v = self.expr(args[0], env)
+            if v.ty.kind == "list":
+                return v            # a fresh copy: the identity under value semantics
+            self.bad(e, f"{fn} of {v.ty}")
         if fn == "len" and len(args) == 1 and not kw:
             v = self.expr(args[0], env)
             if v.ty.kind == "str":
@@ -553,6 +668,23 @@ class FnSM(P.Fn):
             if v.ty.kind == "list":
                 return Val(f"(Py.size {v.code})", INT)
             self.bad(e, f"numpy.size of {v.ty}")
+        if np_("zeros") and len(args) == 1 and not kw:
+            if isinstance(args[0], ast.Tuple) and len(args[0].elts) == 2:
+                a, b = self.expr(args[0].elts[0], env), self.expr(args[0].elts[1], env)
+                if a.ty.kind in ("int", "nat") and b.ty.kind in ("int", "nat"):
+                    tn = lambda v: v.code if v.ty.kind == "nat" else f"(Int.toNat {v.code})"
+                    return Val(f"(List.replicate {tn(a)} (List.replicate {tn(b)} (0 : Nat)))", LIST(LIST(NAT)))
+                self.bad(e, "numpy.zeros of a non-integer shape")
+            n = self.expr(args[0], env)
+            if n.ty.kind in ("int", "nat"):
+                return Val(f"(List.replicate {n.code if n.ty.kind == 'nat' else '(Int.toNat ' + n.code + ')'} (0 : Nat))",
+                           LIST(NAT))       # an array of counts (float64 zeros that only receive += 1)
+            self.bad(e, f"numpy.zeros of {n.ty}")
+        if np_("shape") and len(args) == 1 and not kw:
+            v = self.expr(args[0], env)
+            if v.ty.kind == "list":
+                return Val(f"[Py.size {v.code}]", LIST(INT))
+            self.bad(e, f"numpy.shape of {v.ty}")
         if fn == "zip" and len(args) == 2 and not kw:
             a, b = self.expr(args[0], env), self.expr(args[1], env)
             if a.ty.kind == "list" and b.ty.kind == "list" and a.ty.item is not None and b.ty.item is not None:
@@ -673,10 +805,14 @@ class FnSM(P.Fn):
             v = Val(self.coerce_sm(v, decl, node), decl)
         if v.ty.kind == "list" and v.ty.item is None:
             self.bad(node, f"`{key} = []` needs a declared element type (TARGETS.locals)")
-        if v.ty.kind == "none" and decl is None:
+        if (v.ty.kind == "none" and decl is None) or (v.code is None and v.is_static and v.ty.kind in ("class", "str")):
             env2 = dict(env)
             env2[key] = v
             return pre + go(env2)
+        if v.ty.kind == "cmpdict":
+            env2 = dict(env)
+            env2[key] = Val(self.lname(key), v.ty)
+            return pre + f"{pad}let {self.lname(key)} : List (String × PySM.Cmp) := {v.code};\n" + go(env2)
         if v.ty.kind in ("tzinfo", "tzstr", "monthrange", "utc", "unused", "idxtuple"):
             self.bad(node, f"variable of helper type {v.ty}")
         env2 = dict(env)
@@ -774,6 +910,20 @@ class FnSM(P.Fn):
                     env2[x.id] = Val(mangle(x.id), v.ty.item[i])
                     out += f"{pad}let {mangle(x.id)} := {proj};\n"
                 return pre + out + self.blk(rest, env2, k, ind, ctx)
+            if isinstance(t, ast.Tuple) and all(isinstance(x, ast.Name) for x in t.elts) and v.ty.kind == "list" \
+                    and v.ty.item is not None and len(t.elts) in (3, 4):
+                # a, b, c = <list>: ValueError unless the lengths agree
+                tmp = self.fresh("u")
+                self.pending.append((tmp, f"(PySM.unpack{len(t.elts)} {v.code})"))
+                pre = self.pre(pad)
+                env2 = dict(env)
+                out = ""
+                n = len(t.elts)
+                for i, x in enumerate(t.elts):
+                    proj = tmp + "".join([".2"] * i) + (".1" if i < n - 1 else "")
+                    env2[x.id] = Val(mangle(x.id), v.ty.item)
+                    out += f"{pad}let {mangle(x.id)} := {proj};\n"
+                return pre + out + self.blk(rest, env2, k, ind, ctx)
             if isinstance(t, ast.Subscript) and self.key_of(t.value) in env and env[self.key_of(t.value)].ty.kind == "ndarr":
                 key = self.key_of(t.value)
                 self.check_inplace(key, env, s)
@@ -804,6 +954,19 @@ class FnSM(P.Fn):
                 self.pending.append((tmp, f"(PySM.{'setN' if i.ty.kind == 'nat' else 'setI'} {cur.code} {i.code} {newv})"))
                 return self.rebind(key, Val(tmp, cur.ty), env, go, pad, s)
             self.bad(s, "assignment target")
+        if isinstance(s, ast.AugAssign) and isinstance(s.target, ast.Subscript) and isinstance(s.op, ast.Add) \
+                and isinstance(s.target.slice, ast.Tuple) and len(s.target.slice.elts) == 2:
+            key = self.key_of(s.target.value)
+            self.check_inplace(key, env, s)
+            cur = env[key]
+            if cur.ty != LIST(LIST(NAT)):
+                self.bad(s, f"a[(i, j)] += v on {cur.ty}")
+            i, j = self.expr(s.target.slice.elts[0], env), self.expr(s.target.slice.elts[1], env)
+            v = self.expr(s.value, env)
+            tmp = self.fresh("a")
+            self.pending.append((tmp, f"(PySM.bump2 {cur.code} {self.to_int(i, s)} {self.to_int(j, s)} "
+                                      f"{self.coerce_sm(v, NAT, s)})"))
+            return self.rebind(key, Val(tmp, cur.ty), env, go, pad, s)
         if isinstance(s, ast.AugAssign):
             key = self.key_of(s.target)
             if key is None:
@@ -855,10 +1018,11 @@ class FnSM(P.Fn):
                 key = self.key_of(c.args[0])
                 self.check_inplace(key, env, s)
                 cur, idx, val = env[key], self.expr(c.args[1], env), self.expr(c.args[2], env)
-                if cur.ty != LIST(NAT) or idx.ty != LIST(NAT):
+                if cur.ty != LIST(NAT) or idx.ty not in (LIST(NAT), LIST(INT)):
                     self.bad(s, f"numpy.add.at on {cur.ty} with indices {idx.ty}")
                 tmp = self.fresh("a")
-                self.pending.append((tmp, f"(PySM.addAt {cur.code} {idx.code} {self.coerce_sm(val, NAT, s)})"))
+                op_ = "addAt" if idx.ty == LIST(NAT) else "addAtI"
+                self.pending.append((tmp, f"(PySM.{op_} {cur.code} {idx.code} {self.coerce_sm(val, NAT, s)})"))
                 return self.rebind(key, Val(tmp, cur.ty), env, go, pad, s)
             if isinstance(c.func, ast.Attribute) and c.func.attr in MUTATING_METHODS and len(c.args) == 1 and not c.keywords:
                 key = self.key_of(c.func.value)
@@ -1000,7 +1164,15 @@ class FnSM(P.Fn):
             cands = [e_[nm].ty for e_ in ends if nm in e_]
             if len(cands) < len(ends):
                 self.bad(s, f"{nm} is assigned in one branch only and undefined before")
-            tys[nm] = self.join_ty(cands, nm, s)
+            try:
+                tys[nm] = self.join_ty(cands, nm, s)
+            except Untranslatable:
+                if nm in env:
+                    raise
+                # first assigned inside the branches with different types (e.g. `value`: an int on one path, a str on the
+                # other): local to the branches; a later read is an unknown name and stops the translation
+                tys[nm] = None
+        names = [nm for nm in names if tys[nm] is not None]
         if not names:
             # an `if` whose branches only raise / assert: keep it for its effect
             a = self.blk(list(s.body), dict(env), lambda e_: "  " * (ind + 1) + "(Except.ok ())", ind + 1, ctx)
@@ -1238,7 +1410,7 @@ class FnSM(P.Fn):
             for r in _recs(t):
                 if r not in recs:
                     recs.append(r)
-        for r in (_recs(self.yield_ty) if self.yield_ty else []) + (_recs(spec["csv_rows"]) if self.uses_rows else []):
+        for r in (_recs(spec["field_of"]) if self.uses_field_of else []) + (_recs(self.yield_ty) if self.yield_ty else []) + (_recs(spec["csv_rows"]) if self.uses_rows else []):
             if r not in recs:
                 recs.append(r)
         seen, opq_params = set(), []
@@ -1250,6 +1422,11 @@ class FnSM(P.Fn):
                  ([f"(rows' : {lty(spec['csv_rows'])})"] if self.uses_rows else [])
         if is_method:
             hidden.append("(self' : " + " × ".join(P._paren(lty(t)) for f, (lf, t) in self.self_fields.items()) + ")")
+        if self.uses_field_of:
+            opq_params.append(f"(field_of : String → Option ({lty(spec['field_of'])} → Rat))")
+        aorder = [(r_, a_) for r_, d_ in spec.get("rec_attrs", {}).items() for a_ in d_]
+        for (r_, a_, t_) in sorted(self.used_attrs, key=lambda u: aorder.index((u[0], u[1]))):
+            opq_params.append(f"({r_}_{a_} : {r_} → {lty(t_)})")
         corder = list(spec.get("columns", {}))       # declared order: stable under reordering of the statements
         cols = [f"(col_{c} : {lty(rt_)} → {lty(ct)})"
                 for (c, rt_, ct) in sorted(self.used_cols, key=lambda u: corder.index(u[0]))]
@@ -1338,7 +1515,8 @@ def _strlit(s):
 def exc_of(name):
     return {"ValueError": "(PySM.Exc.py Py.Err.valueError)", "IndexError": "(PySM.Exc.py Py.Err.indexError)",
             "AssertionError": "(PySM.Exc.py Py.Err.assertionError)", "StopIteration": "PySM.Exc.stopIteration",
-            "TypeError": "PySM.Exc.typeError", "AttributeError": "PySM.Exc.attributeError"}.get(
+            "TypeError": "PySM.Exc.typeError", "AttributeError": "PySM.Exc.attributeError",
+            "KeyError": "PySM.Exc.keyError"}.get(
         name, "(PySM.Exc.py Py.Err.other)")
 
 
@@ -1346,6 +1524,18 @@ ROW = REC("Row")
 
 # temp_event of the catalog-forecast loader: (event_id, origin_time, lat, lon, depth, magnitude)
 EV = TUPLE(STR, OPT(INT), OPT(F64), OPT(F64), OPT(F64), OPT(F64))
+
+# opaque raising parsers of `filter`: float(<str>) and time_utils.strptime_to_utc_epoch(<str>) (both ValueError)
+_FILTER_OPAQUE = {"float": dict(lean="float_of_str", args=[STR], ret=F64, raises=True),
+                  "strptime_to_utc_epoch": dict(lean="strptime_to_utc_epoch", args=[STR], ret=INT, raises=True)}
+
+# the catalog gridding methods (C03)
+_GRID_SELF = {"catalog": ("catalog", LIST(ROW)), "region": ("region", REC("Region"))}
+_GRID_COLS = {"longitude": F64, "latitude": F64, "magnitude": F64}
+_GRID_ATTRS = {"Region": {"num_nodes": INT, "magnitudes": OPT(LIST(F64))}}
+_GRID_OPAQUE = {"self.region.get_index_of": dict(lean="get_index_of", args=[LIST(F64), LIST(F64)], ret=LIST(NAT), raises=True),
+                "bin1d_vec": dict(lean="bin1d_vec", args=[LIST(F64), LIST(F64)], ret=LIST(INT),
+                                  fixed_kw={"tol": None, "right_continuous": True})}
 
 # ----------------------------------------------------------------------------- targets
 # as in py2lean.TARGETS; extra keys: inout (parameters updated in place), locals (declared types of locals first bound to
@@ -1403,6 +1593,40 @@ TARGETS = [
          also=[], params={}, body_from="for",
          live_in=dict(a=NDARR(F64), idx=LIST(INT), idy=LIST(INT), xs=LIST(F64), ys=LIST(F64)),
          self_fields={"polygons": ("polygons", LIST(REC("Poly"))), "poly_mask": ("poly_mask", OPT(LIST(INT)))}),
+    # C03: the gridding methods of the catalog. Specialisation: the catalog is bound to a region (an opaque object: its
+    # `num_nodes`, `magnitudes` are opaque projections, `region.get_index_of` an opaque raising function); `bin1d_vec` is an
+    # opaque parameter (tied by py2lean); `mag_bins` is given, `tol=None`, `retbins=False`; count arrays are `Nat`s.
+    dict(file="csep/core/catalogs.py", func="AbstractBaseCatalog.spatial_counts", lean="spatial_counts", prop="C03", also=[],
+         params={}, self_fields=_GRID_SELF, columns=_GRID_COLS, rec_attrs=_GRID_ATTRS, opaque=_GRID_OPAQUE),
+    dict(file="csep/core/catalogs.py", func="AbstractBaseCatalog.magnitude_counts", lean="magnitude_counts", prop="C03", also=[],
+         params=dict(mag_bins=LIST(F64), tol=NONE, retbins={"static": False}),
+         self_fields=_GRID_SELF, columns=_GRID_COLS, rec_attrs=_GRID_ATTRS, opaque=_GRID_OPAQUE),
+    dict(file="csep/core/catalogs.py", func="AbstractBaseCatalog.spatial_magnitude_counts", lean="spatial_magnitude_counts",
+         prop="C03", also=[], params=dict(mag_bins=LIST(F64), tol=NONE),
+         self_fields=_GRID_SELF, columns=_GRID_COLS, rec_attrs=_GRID_ATTRS, opaque=_GRID_OPAQUE),
+    # C04: `filter` for a list / tuple of statement strings, in place (returns self) …
+    dict(file="csep/core/catalogs.py", func="AbstractBaseCatalog.filter", lean="filter_inplace", prop="C04", also=[],
+         label="AbstractBaseCatalog.filter[statements: list of str, in_place=True]",
+         params=dict(statements=LIST(STR), in_place={"static": True}), field_of=ROW, module="C04F",
+         self_fields={"filters": ("filters", LIST(STR)), "catalog": ("catalog", LIST(ROW))},
+         opaque=_FILTER_OPAQUE),
+    # … with `statements=None` (the statements stored in `self.filters`) …
+    dict(file="csep/core/catalogs.py", func="AbstractBaseCatalog.filter", lean="filter_stored", prop="C04", also=[],
+         label="AbstractBaseCatalog.filter[statements=None, in_place=True]",
+         params=dict(statements=NONE, in_place={"static": True}), field_of=ROW, module="C04F",
+         self_fields={"filters": ("filters", LIST(STR)), "catalog": ("catalog", LIST(ROW))},
+         opaque=_FILTER_OPAQUE),
+    # … and returning a new instance (`in_place=False`; the constructor is an opaque parameter)
+    dict(file="csep/core/catalogs.py", func="AbstractBaseCatalog.filter", lean="filter_new", prop="C04", also=[],
+         label="AbstractBaseCatalog.filter[statements: list of str, in_place=False]",
+         params=dict(statements=LIST(STR), in_place={"static": False}), field_of=ROW, module="C04F",
+         self_fields={"filters": ("filters", LIST(STR)), "catalog": ("catalog", LIST(ROW)),
+                      "catalog_id": ("catalog_id", REC("CatId")), "format": ("format", REC("Fmt")),
+                      "name": ("name", REC("Name")), "region": ("region", REC("Reg"))},
+         opaque=dict(_FILTER_OPAQUE, cls=dict(
+             lean="cls", args=[], ret=REC("Inst"),
+             kwparams={"data": LIST(ROW), "catalog_id": REC("CatId"), "format": REC("Fmt"), "name": REC("Name"),
+                       "region": REC("Reg"), "filters": LIST(STR)}))),
     # C04: `apply_mct` (method; state record = the structured array `self.catalog`, rows of an opaque type `Row` with the
     # declared columns as opaque projections). Transcendental pieces are opaque parameters, as in the hand model: float
     # power `10 ** x`, the nested `compute_mct` (log10; digest pinned), `days_to_millis` / `millis_to_days` of time_utils.
